@@ -40,6 +40,18 @@ type Loaded struct {
 	NumFunc      int
 }
 
+// currentOverlay: the file contents the program being analysed was loaded with
+// (sensitivity suite); rules that read sources themselves (Engine D) use it too.
+var currentOverlay map[string][]byte
+
+// readSource reads a source file of the analysed tree, honouring the overlay.
+func readSource(path string) ([]byte, error) {
+	if b, ok := currentOverlay[path]; ok {
+		return b, nil
+	}
+	return os.ReadFile(path)
+}
+
 func repoDir() string {
 	if d := os.Getenv("UGO_REPO"); d != "" {
 		return d
@@ -82,6 +94,7 @@ func load(goos, goarch string, overlay map[string][]byte) (*Loaded, error) {
 		return nil, fmt.Errorf("type errors in %s (%s): %s", dir, cfgName, strings.Join(errs, "; "))
 	}
 	sort.Slice(pkgs, func(i, j int) bool { return pkgs[i].PkgPath < pkgs[j].PkgPath })
+	currentOverlay = overlay
 	l := &Loaded{Dir: dir, Config: cfgName, Pkgs: pkgs, ByPath: map[string]*packages.Package{}, SPkgs: map[string]*ssa.Package{}, declOf: map[*types.Func]*ast.FuncDecl{}}
 	for _, p := range pkgs {
 		l.ByPath[p.PkgPath] = p
